@@ -28,10 +28,10 @@ MUTANTS = [
      "        self.values.append(new_binding)\n        if self.attrpath_order:\n            self.attrpath_order.append(new_binding)",
      "        self.values.insert(0, new_binding)\n        if self.attrpath_order:\n            self.attrpath_order.insert(0, new_binding)"),
     ("reconcile_disabled", "C14", "expressions/set.py",
-     "    if not order:\n        return values\n\n    live: dict",
-     "    if True:\n        return order if order else values\n\n    live: dict"),
+     "    if not order:\n        return values\n\n    # Keyed by object",
+     "    if True:\n        return order if order else values\n\n    # Keyed by object"),
     ("attrpath_prune_missing", "C05", "cli/manipulations.py",
-     "        if isinstance(binding.value, AttributeSet) and not binding.value.values:\n            parent_set.values.remove(binding)\n        else:\n            break",
+     "        if isinstance(binding.value, AttributeSet) and not binding.value.values:\n            _remove_by_identity(parent_set.values, binding)\n        else:\n            break",
      "        break"),
     ("layer_index_off", "C09", "cli/manipulations.py",
      "        target_layer = layers[-depth]\n        attrset = AttributeSet(",
